@@ -180,7 +180,7 @@ class Obl:
     def __init__(self, name, harness, defines=None, variant="dbg", unwind=None, unwindset=None, flags=None,
                  timeout=300, mem_gb=8, desc="", funcs=None, bounds="", nontrivial=True, sample=None,
                  extra_src=None, gen_src=None, pipeline="cbmc", dfcc=None, leak=False, backend=None,
-                 no_witness=False, drop_base=None, depth=None, ptrcheck=True, cost=None):
+                 no_witness=False, drop_base=None, depth=None, ptrcheck=True, cost=None, paths_first=False):
         self.name = name
         self.harness = harness
         self.defines = dict(defines or {})
@@ -205,6 +205,8 @@ class Obl:
         self.drop_base = drop_base or []
         self.depth = depth
         self.cost = cost            # scheduling hint: heavy obligations start first
+        self.paths_first = paths_first  # pre-pass with path-wise symex (--paths lifo --stop-on-fail): a defect that corrupts the heap is reported from the first failing path instead of blowing up the monolithic formula
+        self._traces = {}
         self.ptrcheck = ptrcheck   # False: functional obligation; memory-safety checks are decided by the safety obligations (C01)
 
     def key(self):
@@ -333,7 +335,58 @@ def parse_json_ui(txt):
     return None
 
 
+def run_paths_prepass(obl):
+    """Path-wise symbolic execution, stopping at the first failing path. Returns None if every path verified (the ordinary run then
+    re-decides everything in one formula and checks the witness), or a FAIL Result carrying the counterexample trace."""
+    res = Result(obl)
+    jobdir = os.path.join(WORK, "%d_%s_paths" % (os.getpid(), obl.key()))
+    shutil.rmtree(jobdir, ignore_errors=True)
+    os.makedirs(jobdir)
+    t0 = time.time()
+    o2 = Obl(obl.name, obl.harness, dict(obl.defines, VF_NO_WITNESS=1), obl.variant, gen_src=obl.gen_src, extra_src=obl.extra_src)
+    try:
+        binary = compile_harness(o2, jobdir)
+        cmd = [c for c in cbmc_cmd(obl, binary, ["--paths", "lifo", "--stop-on-fail"])]
+        rc, out, err, to, wall = _run(cmd, obl.timeout, obl.mem_gb)
+    finally:
+        shutil.rmtree(jobdir, ignore_errors=True)
+    res.wall = time.time() - t0
+    if to:
+        res.status = "TIMEOUT"; res.msg = "path-wise pre-pass exceeded %ds" % obl.timeout
+        return res
+    js = parse_json_ui(out)
+    if js is None or "ran out of memory" in out or "bad_alloc" in err:
+        res.status = "OOM" if ("memory" in out or "bad_alloc" in err) else "ERROR"; res.msg = out[-800:] + err[-400:]
+        return res
+    status = None
+    for el in js:
+        if isinstance(el, dict) and "cProverStatus" in el:
+            status = el["cProverStatus"]
+        if isinstance(el, dict) and el.get("status") == "failed" and "trace" in el:
+            loc = {}
+            for st in reversed(el["trace"]):
+                if st.get("sourceLocation", {}).get("file"):
+                    loc = st["sourceLocation"]; break
+            p = {"property": el.get("property", ""), "description": el.get("description", ""), "status": "FAILURE", "sourceLocation": loc}
+            obl._traces[p["property"]] = el["trace"]
+            if "unwinding assertion" in p["description"]:
+                res.unwinding_failed.append(p)
+            else:
+                res.failed.append(p)
+    if status == "success":
+        return None
+    if res.failed or res.unwinding_failed:
+        res.status = "FAIL"; res.nprops = 1
+        return res
+    res.status = "ERROR"; res.msg = "path-wise pre-pass: no verdict\n" + out[-600:]
+    return res
+
+
 def run_obl(obl, want_trace_for=None):
+    if obl.paths_first and not want_trace_for:
+        pre = run_paths_prepass(obl)
+        if pre is not None:
+            return pre
     res = Result(obl)
     jobdir = os.path.join(WORK, "%d_%s" % (os.getpid(), obl.key()))
     shutil.rmtree(jobdir, ignore_errors=True)
@@ -526,7 +579,7 @@ def replay(check_id, obl, failed_prop):
     info = {"confirmed": False, "how": "", "path": None, "property": pname,
             "description": failed_prop.get("description", ""), "location": failed_prop.get("sourceLocation", {})}
     try:
-        trace = get_trace(obl, pname)
+        trace = obl._traces.get(pname) or get_trace(obl, pname)
     except BuildError as e:
         info["how"] = "trace build error: %s" % e
         return info
@@ -624,6 +677,20 @@ def run_all(obls, jobs=None, budget_s=None):
     def work(i):
         o = obls[i]
         r = run_obl(o)
+        if r.status in ("TIMEOUT", "OOM") and o.pipeline == "cbmc" and not o.paths_first:
+            # A defect that corrupts the heap can make the single monolithic formula blow up (garbage pointers are followed to every
+            # object). Fallback: path-wise symbolic execution stopping at the first failing path. A failure found this way is a genuine
+            # counterexample (it is replayed natively like any other); if the fallback finds nothing the obligation stays undischarged.
+            saved = o.timeout
+            o.timeout = min(saved, 300)
+            try:
+                pre = run_paths_prepass(o)
+            finally:
+                o.timeout = saved
+            if pre is not None and pre.status == "FAIL":
+                pre.wall += r.wall
+                pre.msg = "found by the path-wise fallback after the monolithic run ended in %s" % r.status
+                r = pre
         if r.jobdir:
             shutil.rmtree(r.jobdir, ignore_errors=True)
         log("  [%-7s] %-58s %6.1fs props=%d %s" % (r.status, o.name[:58], r.wall, r.nprops,
